@@ -34,6 +34,12 @@ enum Op {
     },
     /// process death inside an append at a failpoint site (panic), then open again
     AppendDie { size: u32, site: String },
+    /// the disk refuses to grow a file any further in the middle of an append (a real short write
+    /// followed by an error, as a full disk or a file-size quota produces; injected with
+    /// RLIMIT_FSIZE): the write of the item data stops after `cut` bytes, or (`at_index`) the write
+    /// of the index entry stops after `cut` of its 12 bytes. The process lives on: the append must
+    /// fail and change nothing, and later appends must work on the unchanged prefix.
+    AppendIoError { size: u32, cut: u64, at_index: bool },
     RetrieveAll,
     Retrieve { item: u64 },
 }
@@ -73,7 +79,7 @@ fn gen_scenario(seed: u64, failpoints: bool) -> Scenario {
     let mut ops = Vec::new();
     let mut approx_items = 0u64;
     for _ in 0..nops {
-        let w = [30u64, 8, 8, 30, if failpoints { 12 } else { 0 }, 6, 6];
+        let w = [30u64, 8, 8, 30, if failpoints { 12 } else { 0 }, 6, 6, if failpoints { 14 } else { 0 }];
         match r.weighted(&w) {
             0 => {
                 let k = r.urange(1, 5);
@@ -113,6 +119,23 @@ fn gen_scenario(seed: u64, failpoints: bool) -> Scenario {
                     .to_string(),
             }),
             5 => ops.push(Op::RetrieveAll),
+            7 => {
+                // placed inside work: an append batch before it (so the files have content and the
+                // head may be close to a roll-over) and one after it (the next items land on
+                // whatever the failed append left behind)
+                if r.chance(1, 2) {
+                    let k = r.urange(1, 4);
+                    approx_items += k as u64;
+                    ops.push(Op::Append { sizes: (0..k).map(|_| r.range(1, max_item as u64) as u32).collect(), sync: r.chance(1, 2) });
+                }
+                ops.push(Op::AppendIoError { size: r.range(1, max_item as u64) as u32, cut: r.range(0, 200), at_index: r.chance(1, 2) });
+                if r.chance(3, 4) {
+                    let k = r.urange(1, 3);
+                    approx_items += k as u64;
+                    ops.push(Op::Append { sizes: (0..k).map(|_| r.range(1, max_item as u64) as u32).collect(), sync: r.chance(1, 2) });
+                    ops.push(Op::RetrieveAll);
+                }
+            }
             _ => ops.push(Op::Retrieve {
                 item: r.range(0, approx_items + 2),
             }),
@@ -134,10 +157,13 @@ fn gen_scenario(seed: u64, failpoints: bool) -> Scenario {
 struct Layout {
     /// per item (1-based index i-1): (file_id, end_offset)
     ends: Vec<(u32, u64)>,
+    /// an append that failed after it had opened the next data file leaves the running freezer
+    /// with that (empty) file as its head until the next re-open
+    moved: Option<(u32, u64)>,
 }
 impl Layout {
     fn head(&self) -> (u32, u64) {
-        self.ends.last().copied().unwrap_or((0, 0))
+        self.moved.unwrap_or_else(|| self.ends.last().copied().unwrap_or((0, 0)))
     }
     fn push(&mut self, stored_len: u64, max: u64) {
         let (mut f, mut off) = self.head();
@@ -145,8 +171,38 @@ impl Layout {
             f += 1;
             off = 0;
         }
+        self.moved = None;
         self.ends.push((f, off + stored_len));
     }
+}
+
+/// Run `f` while no file of this process may grow beyond `limit` bytes (a write that crosses the
+/// limit is cut short there, the next one fails with EFBIG). Process-global: single-threaded batches only.
+fn with_file_size_limit<T>(limit: u64, f: impl FnOnce() -> T) -> T {
+    #[repr(C)]
+    struct RLimit {
+        cur: u64,
+        max: u64,
+    }
+    unsafe extern "C" {
+        fn getrlimit(resource: i32, rlim: *mut RLimit) -> i32;
+        fn setrlimit(resource: i32, rlim: *const RLimit) -> i32;
+        fn signal(signum: i32, handler: usize) -> usize;
+    }
+    const RLIMIT_FSIZE: i32 = 1;
+    const SIGXFSZ: i32 = 25;
+    const SIG_IGN: usize = 1;
+    let mut old = RLimit { cur: 0, max: 0 };
+    unsafe {
+        signal(SIGXFSZ, SIG_IGN);
+        assert_eq!(getrlimit(RLIMIT_FSIZE, &mut old), 0);
+        assert_eq!(setrlimit(RLIMIT_FSIZE, &RLimit { cur: limit, max: old.max }), 0);
+    }
+    let r = f();
+    unsafe {
+        assert_eq!(setrlimit(RLIMIT_FSIZE, &RLimit { cur: old.cur, max: old.max }), 0);
+    }
+    r
 }
 
 fn stored_len(data: &[u8], compression: bool) -> u64 {
@@ -216,11 +272,38 @@ fn exec(sc: &Scenario, dir: &Path) -> RunResult {
         }
     };
 
+    // after an injected write error the INDEX file is inspected before any retrieve: an entry that
+    // is out of place or names an impossible offset makes retrieve allocate terabytes and abort the
+    // whole process, which would hide the finding behind a dead batch
+    let mut io_error_seen = false;
+    let index_guard = |n: u64| -> Result<(), String> {
+        let raw = fs::read(dir.join("INDEX")).map_err(|e| e.to_string())?;
+        // (bytes of a failed write may lie beyond the last entry; they are not part of the index)
+        if (raw.len() as u64) < (n + 1) * INDEX_ENTRY {
+            return Err(format!("INDEX has {} bytes, {} items need {}", raw.len(), n, (n + 1) * INDEX_ENTRY));
+        }
+        let mut prev: (u32, u64) = (0, 0);
+        for k in 0..=n as usize {
+            let e = &raw[k * 12..k * 12 + 12];
+            let f = u32::from_le_bytes(e[0..4].try_into().unwrap());
+            let off = u64::from_le_bytes(e[4..12].try_into().unwrap());
+            let ok = if k == 0 { true } else { (f == prev.0 && off >= prev.1) || (f == prev.0 + 1) };
+            let len = fs::metadata(dir.join(file_name(f))).map(|m| m.len()).unwrap_or(0);
+            if !ok || off > len {
+                return Err(format!("entry {k} = (file {f}, end {off}) after (file {}, end {}); file length {len}", prev.0, prev.1));
+            }
+            prev = (f, off);
+        }
+        Ok(())
+    };
     // full check of the model against the freezer
     macro_rules! check_all {
         ($why:expr) => {{
             let n = items.len() as u64;
-            if ff.number() != n + 1 {
+            let guard = if io_error_seen && ff.number() == n + 1 { index_guard(n) } else { Ok(()) };
+            if let Err(d) = guard {
+                cx.viol(&format!("corrupt_index:{}", $why), d);
+            } else if ff.number() != n + 1 {
                 cx.viol(
                     &format!("number_mismatch:{}", $why),
                     format!("number()={} model items={}", ff.number(), n),
@@ -272,6 +355,7 @@ fn exec(sc: &Scenario, dir: &Path) -> RunResult {
             } else {
                 items.truncate(n as usize);
                 layout.ends.truncate(n as usize);
+                layout.moved = None;
                 check_all!($why);
                 // files on disk agree with what the freezer believes: head file length == last end
                 let (hf, hl) = layout.head();
@@ -335,6 +419,7 @@ fn exec(sc: &Scenario, dir: &Path) -> RunResult {
                         if !(*keep < 1 || (*keep + 1) >= n1) {
                             items.truncate(*keep as usize);
                             layout.ends.truncate(*keep as usize);
+                            layout.moved = None;
                             cx.res.probes.inc("truncate_effective");
                         }
                         // the harness makes truncation a sync point (process-death model)
@@ -359,6 +444,7 @@ fn exec(sc: &Scenario, dir: &Path) -> RunResult {
                         return finish(cx);
                     }
                 };
+                layout.moved = None;
                 let (hf, hl) = layout.head();
                 synced = (hf, hl, (items.len() as u64 + 1) * INDEX_ENTRY);
                 check_all!("clean_reopen");
@@ -501,6 +587,42 @@ fn exec(sc: &Scenario, dir: &Path) -> RunResult {
                 // if every write of the append completed before death the item must survive;
                 // anything completed before this op must be there in any case
                 after_crash!(if full { lower + 1 } else { lower }, "die");
+            }
+            Op::AppendIoError { size, cut, at_index } => {
+                cx.il.write_u64(8);
+                let number = items.len() as u64 + 1;
+                let data = item_bytes(number, *size, sc.compression);
+                let stored = stored_len(&data, sc.compression);
+                let (hf, hl) = layout.head();
+                let rolls = hl + stored > sc.max_file_size;
+                let head_off = if rolls { 0 } else { hl };
+                let index_len = (items.len() as u64 + 1) * INDEX_ENTRY;
+                let limit = if *at_index { index_len + (*cut % INDEX_ENTRY) } else { head_off + (*cut % stored.max(1)) };
+                let head_fails = head_off + stored > limit;
+                let index_fails = !head_fails && index_len + INDEX_ENTRY > limit;
+                cx.il.write_u64(limit);
+                io_error_seen = true;
+                let r = with_file_size_limit(limit, || ff.append(number, &data));
+                match (r, head_fails || index_fails) {
+                    (Ok(()), false) => {
+                        // the limit was beyond both writes: an ordinary append
+                        layout.push(stored, sc.max_file_size);
+                        items.push(data);
+                    }
+                    (Ok(()), true) => cx.viol("io_error_swallowed", format!("op {opi}: append of item {number} reported success although the file could not grow beyond {limit} bytes")),
+                    (Err(e), false) => cx.viol("append_failed", format!("op {opi} item {number}: {e}")),
+                    (Err(_), true) => {
+                        cx.res.faults.inc(if head_fails { "append_io_error:data_write_cut_short" } else { "append_io_error:index_write_cut_short" });
+                        if rolls {
+                            cx.res.faults.inc("append_io_error:after_opening_next_file");
+                            layout.moved = Some((hf + 1, 0));
+                        }
+                        cx.res.nontrivial = true;
+                        // nothing was appended: same count, same items
+                        check_all!("after_io_error");
+                    }
+                }
+                cx.ev(&format!("append-io-error limit={limit} -> n={}", items.len()));
             }
             Op::RetrieveAll => {
                 cx.il.write_u64(6);
